@@ -169,6 +169,11 @@ func C18(c *Ctx) {
 				}
 				cs.AllowInvalid = o == 3
 				cs.NoRecover = o == 4
+				if ii%6 == 5 {
+					// budgets that run out, different ones in calls that overlap (with Recover(false) the
+					// budget panic reaches the caller)
+					cs.MaxExpr = uint64(3 + (ii*7)%60)
+				}
 				cs.SharedOpts = ii%2 == 0 // option values shared by all calls
 				cs.Reader = ii%3 == 1 // through ParseReader (the input buffer is then the runtime's, not the caller's)
 				if u.G.UsesState || !u.HasFlag("-optimize-parser") {
